@@ -72,11 +72,20 @@ package sourcerunner
 //@   atcall Add: same(recv_, r.keyEventChannel) && same(arg1, event)
 //@   ensures called(Add)
 
+// Event time (C11) advances exactly when a keyed event is forwarded to its operator - each
+// forwarded event is preceded by its own AdvanceTime - and nowhere earlier: the keying callback
+// runs ahead of forwarding, so advancing there would let a watermark pass events still queued.
 //@ func SourceRunner.sendOperatorEvent
-//@   property C04
+//@   property C04 C11
 //@   nosafety
 //@   atcall routeEvent: same(arg0, event.Key) && arg1 != nil
 //@   atcall AdvanceTime: true
+//@   order routeEvent after AdvanceTime
+
+//@ func SourceRunner.Start$0
+//@   property C11
+//@   nosafety
+//@   atcall AdvanceTime: false
 
 // Everything the operators receive goes through the output stream, in the order it was queued
 // by this loop: the loop itself never talks to the operators (a barrier or watermark sent
